@@ -5,7 +5,7 @@
 Exit 0: property held on everything explored; 1: VIOLATION (reproduced on the real code); 2: inconclusive."""
 import argparse, json, os, re, shutil, sys, time, random
 sys.path.insert(0, os.path.dirname(os.path.abspath(__file__)))
-import vlib, obs, progs, models, m1, conform
+import vlib, obs, progs, models, m1, conform, distconf
 from concurrent.futures import ThreadPoolExecutor
 from vlib import log, Inconclusive
 
@@ -85,6 +85,28 @@ def run_models(pid, tier, scratch):
             if not r.get('ok'):
                 import tlcsum
                 log('model %s%s: %s\n%s' % (n, ' (liveness)' if lv else '', r.get('violated') or 'TLC error', (tlcsum.summarize(r['out'], 60) or r['out'][-1500:])))
+    return out
+
+
+# property -> configurations of spec/Dist.tla (several consumers on one adapter): (quick, thorough extra); "!name" = sensitivity
+# self-test, a configuration of a known defect that TLC must report as violated
+DIST_PLAN = {'C13': (['Dist_late', 'Dist_live'], ['Dist_share', '!Dist_gap', '!Dist_stoponerr']),
+             'C11': (['Dist_late'], ['Dist_share']),
+             'C12': (['Dist_late'], [])}
+
+
+def run_dist_models(pid, tier, scratch):
+    q, t = DIST_PLAN.get(pid, ([], []))
+    out = []
+    for name in q + (t if tier == 'thorough' else []):
+        expect_bad = name.startswith('!')
+        cfg = name.lstrip('!')
+        r = vlib.run_tlc('MC_dist', os.path.join(SPEC, 'cfg', cfg + '.cfg'), scratch, workers=vlib.NCPU, timeout=900, tag=cfg, heap='8g')
+        ok = bool(r.get('violated')) if expect_bad else bool(r.get('ok'))
+        out.append({'config': cfg, 'liveness': cfg.endswith('_live'), 'ok': ok, 'states': r.get('distinct', 0), 'transitions': r.get('generated', 0),
+                    'depth': r.get('depth', 0), 'seconds': round(r['wall'], 1), 'violated': r.get('violated'), 'expected_violation': expect_bad})
+        if not ok:
+            log('model %s: %s\n%s' % (cfg, r.get('violated') or 'TLC error', r['out'][-1500:]))
     return out
 
 
@@ -370,7 +392,7 @@ def check_property(pid, tier, seed):
         if plan.get('life_exhaustive'):
             gated += progs.life_exhaustive(plan['life_exhaustive'][0 if tier == 'quick' else 1], rng.randrange(1 << 30), pid + 'x')
         # ---- model checking (all interleavings of the small configurations) and TLC-generated schedules (M1)
-        mres = run_models(pid, tier, scratch)
+        mres = run_models(pid, tier, scratch) + run_dist_models(pid, tier, scratch)
         mark('models done')
         cov['model_configs'] = mres
         mq, mt, _ = MODEL_PLAN.get(pid, ([], [], []))
@@ -563,13 +585,15 @@ def check_property(pid, tier, seed):
                 print('INCONCLUSIVE property=%s formula(s) %s failed once on episode %s but not on re-execution' % (pid, sorted(fs), epid), flush=True)
         mark('verdict pass 2 done')
         # ---- conformance pass: recorded gated traces must be behaviours of VarMQ.tla (Trace.tla)
-        elig = [e for e in usable if e['prog']['sched']['kind'] != 'free' and conform.eligible(e['prog'])]
+        elig = [e for e in usable if e['prog']['sched']['kind'] != 'free' and e['end']['result'] == 'ok' and (conform.eligible(e['prog']) or distconf.eligible(e['prog']))]
         rng2 = random.Random(seed)
         rng2.shuffle(elig)
         sample = sorted(elig[:60 if tier == 'quick' else 900], key=lambda e: len(e['events']))[:24 if tier == 'quick' else 600]
 
         def conf(e):
             try:
+                if distconf.eligible(e['prog']):
+                    return e, distconf.validate(e, scratch, e['prog']['id'], timeout=40)
                 return e, conform.validate(e, scratch, e['prog']['id'], timeout=40)
             except Exception as ex:
                 return e, {'accepted': None, 'error': str(ex)}
@@ -586,7 +610,7 @@ def check_property(pid, tier, seed):
                     unk += 1
         cov['conformance'] = {'validated': acc + rej, 'accepted': acc, 'rejected': rej, 'undecided': unk, 'eligible': len(elig), 'divergences': divs[:10]}
         for d in divs[:5]:
-            print('DIVERGENCE property=%s episode=%s line=%s event=%s (informational: the recorded trace is not a behaviour of spec/VarMQ.tla)' % (pid, d['episode'], d['line'], d['event'][:120]), flush=True)
+            print('DIVERGENCE property=%s episode=%s line=%s event=%s (informational: the recorded trace is not a behaviour of the specification)' % (pid, d['episode'], d['line'], d['event'][:120]), flush=True)
         mark('conformance done')
         cov['traces_validated_against_impl'] = len(usable)
         cov['samples'] = [{'program': usable[0]['prog'], 'first_events': [dict((k, v) for k, v in ev.items() if k != 'st') for ev in usable[0]['events'][:12]]}] if usable else []
